@@ -831,12 +831,12 @@ func VH_C04_datagram_during_teardown() {
 	// the last datagram left on the live association's socket
 	if live == 1 {
 		last := verifChanTargets[len(verifChanTargets)-1].Written()
-		verifAssert("C04.teardown.latest-datagram-on-the-live-socket", len(last) >= 1 && last[len(last)-1].data[0] == '3')
+		verifAssert("C04.teardown.latest-datagram-on-the-live-socket|C18.teardown.listener-keeps-serving-after-a-failed-write", len(last) >= 1 && last[len(last)-1].data[0] == '3')
 	}
 	client.Close()
 	verifQuiesce()
 	_, stillRunning := <-done
-	verifAssert("C04.teardown.handle-returned", !stillRunning && verifBlockedIn("timedCopy") == 0)
+	verifAssert("C04.teardown.handle-returned|C18.teardown.handle-returns-when-the-listener-closes", !stillRunning && verifBlockedIn("timedCopy") == 0)
 	verifReach("C04.teardown.done", true)
 }
 
